@@ -53,44 +53,47 @@ Theorem C17_fault_codes_name :
               call v r = (v, [], Fault F_BAD_NAME).
 Proof. exact fault_codes_name. Qed.
 
-Theorem C17_fault_codes_not_managed_partial :
+Theorem C17_fault_codes_not_managed :
   forall v r, gate_allows (rq_meth r) (nv_state v) = true ->
               bad_strategy r = false -> unknown_name r = false -> unmanaged_app r = true ->
-              is_restart_application (rq_meth r) = false ->
               call v r = (v, [], Fault F_NOT_MANAGED).
 Proof. exact fault_codes_not_managed. Qed.
 
-(* Model |= specification, outside the named known-finding classes. *)
+(* An ill-formed regular expression, or an identifier designating several instances where one is needed, give
+   INCORRECT_PARAMETERS; a 'group:*' namespec given to start_args gives BAD_NAME. *)
+Theorem C17_fault_codes_regex :
+  forall v r, gate_allows (rq_meth r) (nv_state v) = true -> bad_strategy r = false -> bad_regex r = true ->
+              call v r = (v, [], Fault F_INCORRECT_PARAMETERS).
+Proof. exact fault_codes_regex. Qed.
+
+Theorem C17_fault_codes_ambiguous_instance :
+  forall v r, gate_allows (rq_meth r) (nv_state v) = true -> documented_refusal v r = false ->
+              ambiguous_instance r = true -> call v r = (v, [], Fault F_INCORRECT_PARAMETERS).
+Proof. exact fault_codes_ambiguous_instance. Qed.
+
+Theorem C17_fault_codes_start_args_group :
+  forall v r, group_not_applicable r = true -> unknown_name r = false -> hostile_name r = false ->
+              call v r = (v, [], Fault F_BAD_NAME).
+Proof. exact fault_codes_start_args_group. Qed.
+
+(* get_network_info accepts an identifier, a nick identifier or a stereotype designating one instance, in every state. *)
+Theorem C17_network_info_accepts_nick :
+  forall v r, network_info_designates_one r = true -> call v r = (v, [], Served).
+Proof. exact network_info_accepts_nick. Qed.
+
+(* restart / shutdown without a known Master: BAD_SUPVISORS_STATE, node unchanged, nothing emitted. *)
+Theorem C17_restart_shutdown_no_master_refused :
+  forall v r, is_restart_or_shutdown (rq_meth r) = true -> nv_master v = MNone ->
+              call v r = (v, [], Fault F_BAD_SUPVISORS_STATE).
+Proof. exact restart_shutdown_no_master_refused. Qed.
+
+(* Model |= specification, outside the named known-finding class (a namespec that is not a string). *)
 Theorem C17_model_satisfies_spec :
   forall v r, in_known_class v r = false -> spec_ok v r (model_obs v r) = true.
 Proof. exact model_satisfies_spec. Qed.
 
-(* The findings (full statements false of the faithful model; witnesses replayed on the real RPCInterface). *)
-Theorem C17_restart_application_unmanaged_refuted :
-  exists v r, gate_allows (rq_meth r) (nv_state v) = true /\ bad_strategy r = false /\ unknown_name r = false
-              /\ unmanaged_app r = true /\ call v r = (v, [OStop], Served).
-Proof. exact restart_application_unmanaged_refuted. Qed.
-
-Theorem C17_network_info_identifier_refuted :
-  forall v, exists r, class_network_info_identifier v r = true /\ call v r = (v, [], CrashO RKeyError).
-Proof. exact network_info_identifier_refuted. Qed.
-
-Theorem C17_restart_shutdown_no_master_refuted :
-  forall s u j c, from_distribution_on s = true ->
-    (forall r, rq_meth r = M_restart ->
-               call (mk_view s MNone u j c) r = (mk_view s MNone u j c, [], CrashO RRuntimeError))
-    /\ (forall r, rq_meth r = M_shutdown ->
-                  call (mk_view s MNone u j c) r = (mk_view s MNone u j c, [], CrashO RValueError)).
-Proof. exact restart_shutdown_no_master_refuted. Qed.
-
-Theorem C17_start_args_group_refuted :
-  forall v, exists r, class_start_args_group v r = true /\ call v r = (v, [], CrashO RAttributeError).
-Proof. exact start_args_group_refuted. Qed.
-
-Theorem C17_any_process_regex_refuted :
-  exists v r, class_any_process_regex v r = true /\ call v r = (v, [], CrashO RReError).
-Proof. exact any_process_regex_refuted. Qed.
-
+(* The remaining finding (full statement false of the faithful model; witness replayed on the real RPCInterface):
+   a namespec that is not a string raises AttributeError. *)
 Theorem C17_namespec_not_string_refuted :
   exists v r, class_namespec_not_string v r = true /\ call v r = (v, [], CrashO RAttributeError).
 Proof. exact namespec_not_string_refuted. Qed.
